@@ -38,7 +38,11 @@
         element (Level 1 has no factory for it; the document type declaration precedes the root).
     R6  The Rust API does not offer every method on every node type (EntityReference,
         DocumentType, DocumentFragment have no NodeMut; only Text and CDATASection have splitText
-        ...).  Such calls cannot be written; the machine answers [ANotOffered]. *)
+        ...).  Such calls cannot be written; the machine answers [ANotOffered].
+    R7  [Element.normalize] ("no adjacent Text nodes") and reading R4: two adjacent Text nodes whose
+        concatenation cannot be the content of a Text node ("]]" in front of ">") cannot become one
+        node.  The machine leaves such a pair apart and goes on from the second node; every other
+        pair of adjacent Text nodes is joined ([dom_normalize], at the end of this file). *)
 From Coq Require Import List NArith Bool.
 From XmlRs Require Import Base.CPred Base.NList Spec.XmlChars Spec.DomCharData.
 Import ListNotations.
@@ -707,4 +711,63 @@ Definition conforms (before : adom) (o : aop) (after : adom) (got : aoutcome) : 
   match snd (dom_step before o) with
   | AUnspecified => got <> APanicked /\ (after = before \/ after = fst (dom_step before o))
   | want => after = fst (dom_step before o) /\ got = want
+  end.
+
+(** ** Element.normalize (reading R7)
+
+    "Puts all Text nodes in the full depth of the sub-tree underneath this Element into a normal form
+    where only markup (e.g., tags, comments, processing instructions, CDATA sections, and entity
+    references) separates Text nodes, i.e., there are no adjacent Text nodes."
+
+    Executable reading: the children of the element are visited in order; a Text node that directly
+    follows a Text node gives its data to that node (CharacterData.appendData) and leaves the list
+    (Node.removeChild) -- unless the concatenation is refused (R4), in which case it stays and becomes the
+    node the following Text nodes are joined to; child elements are normalized the same way; anything else
+    separates.  [prev]: the Text node directly in front, if there is one.  No exception is specified. *)
+Fixpoint norm_kids (rec : adom -> nid -> adom) (a : adom) (r : nid) (prev : option N) (l : list N) : adom :=
+  match l with
+  | [] => a
+  | c :: t =>
+    match aget a (fst r, c) with
+    | Some cn =>
+      match n_type cn with
+      | TText =>
+        match prev with
+        | Some p =>
+          match dom_step a (AAppendData (fst r, p) (n_value cn)) with
+          | (a1, ADone _) => norm_kids rec (fst (dom_step a1 (ARemoveChild r (fst r, c)))) r prev t
+          | (a1, _) => norm_kids rec a1 r (Some c) t
+          end
+        | None => norm_kids rec a r (Some c) t
+        end
+      | TElement => norm_kids rec (rec a (fst r, c)) r None t
+      | _ => norm_kids rec a r None t
+      end
+    | None => norm_kids rec a r None t
+    end
+  end.
+
+(** [fuel]: the nesting depth that is followed (a tree of [n] nodes is less than [n] deep) *)
+Fixpoint dom_normalize_run (fuel : nat) (a : adom) (r : nid) : adom :=
+  match fuel with
+  | O => a
+  | S f =>
+    match aget a r with
+    | Some rn =>
+      match n_type rn with
+      | TElement => norm_kids (dom_normalize_run f) a r None (n_children rn)
+      | _ => a
+      end
+    | None => a
+    end
+  end.
+
+Definition dom_normalize (a : adom) (r : nid) : adom * aoutcome :=
+  match doc_of a (fst r), aget a r with
+  | Some d, Some rn =>
+    match n_type rn with
+    | TElement => (dom_normalize_run (S (length (d_nodes d))) a r, ADone AUnit)
+    | _ => (a, ANotOffered)
+    end
+  | _, _ => (a, ANotOffered)
   end.
